@@ -40,11 +40,13 @@ def _bind_vars(E, target):
 def _quant(E, node, is_forall):
     names, vs = _bind_vars(E, node.args[0])
     saved = dict(E.st.env)
+    E.binders += 1
     try:
         for n, v in zip(names, vs):
             E.st.env[n] = Z(v, INT)
         parts = [E.eval(a) for a in node.args[1:]]
     finally:
+        E.binders -= 1
         E.st.env.clear()
         E.st.env.update(saved)
     ts = [p if isinstance(p, z3.ExprRef) else zbool(p) for p in parts]
